@@ -105,7 +105,20 @@ func c13Check(c *fw.Ctx, layout geom.Layout, pts []ipt, via int, class string) {
 		flat = c13Buf[:len(flat):len(flat)]
 		c.Count("inputs_passed_in_a_reused_buffer")
 	}
-	vias := []string{"ConvexHullFlat", "ConvexHull(MultiPoint)", "ConvexHull(LineString)"}
+	vias := []string{"ConvexHullFlat", "ConvexHull(MultiPoint)", "ConvexHull(LineString)", "ConvexHull(MultiLineString)", "ConvexHull(Polygon of several rings)", "ConvexHull(MultiPolygon)"}
+	// the same points in any container: split into parts at random places
+	if via < 3 && len(pts) >= 2 && c.R.Chance(1, 4) {
+		via = 3 + c.R.Intn(3)
+	}
+	var cuts []int
+	if via >= 3 {
+		for i := 1; i < len(pts); i++ {
+			if c.R.Chance(1, 3) {
+				cuts = append(cuts, i*stride)
+			}
+		}
+		cuts = append(cuts, len(pts)*stride)
+	}
 	c.SetInput(c13Desc(layout, flat, vias[via]))
 	before := append([]float64{}, flat...)
 	var res geom.T
@@ -115,8 +128,23 @@ func c13Check(c *fw.Ctx, layout geom.Layout, pts []ipt, via int, class string) {
 			res = xy.ConvexHullFlat(layout, flat)
 		case 1:
 			res = xy.ConvexHull(geom.NewMultiPointFlat(layout, flat))
-		default:
+		case 2:
 			res = xy.ConvexHull(geom.NewLineStringFlat(layout, flat))
+		case 3:
+			res = xy.ConvexHull(geom.NewMultiLineStringFlat(layout, flat, cuts))
+		case 4:
+			res = xy.ConvexHull(geom.NewPolygonFlat(layout, flat, cuts))
+		default:
+			var endss [][]int
+			for i := 0; i < len(cuts); {
+				k := 1 + c.R.Intn(2)
+				if i+k > len(cuts) {
+					k = len(cuts) - i
+				}
+				endss = append(endss, cuts[i:i+k])
+				i += k
+			}
+			res = xy.ConvexHull(geom.NewMultiPolygonFlat(layout, flat, endss))
 		}
 	}) {
 		return
@@ -139,6 +167,10 @@ func c13Check(c *fw.Ctx, layout geom.Layout, pts []ipt, via int, class string) {
 		}
 		if c.Guard("panic", func() { geom.TransformInPlace(res, func(co geom.Coord) { co[0] += 1e6; co[1] -= 1e6 }) }) {
 			return
+		}
+		if c.R.Chance(1, 3) {
+			// ... pushing rings onto it, overwriting its ordinates and end offsets likewise
+			callerScribbles(c, res)
 		}
 		if !model.BitsEq(before, flat) {
 			c.Fail("input-modified", "transforming the returned hull in place changed the caller's coordinate slice: now %s", fw.Fs(flat))
@@ -310,9 +342,39 @@ func c13Random(c *fw.Ctx, idx int) {
 	g := []int64{3, 5, 17, 1000, 1 << 20}[r.Intn(5)]
 	rp := func() ipt { return ipt{int64(r.Intn(int(g))), int64(r.Intn(int(g)))} }
 	pts := make([]ipt, 0, n)
-	kind := r.Intn(10)
-	names := []string{"coincident", "two-values", "collinear-axis", "collinear-general", "circle", "clustered", "uniform", "few-extremes", "octagon-degenerate", "octagon-degenerate"}
+	kind := r.Intn(12)
+	names := []string{"coincident", "two-values", "collinear-axis", "collinear-general", "circle", "clustered", "uniform", "few-extremes", "octagon-degenerate", "octagon-degenerate", "lune-chain", "lune-chain"}
 	switch kind {
+	case 10, 11:
+		// a hull of m vertices on a large circle; between two of them, just inside
+		// the hull but outside the octagon of extreme points, a long chain of k
+		// points on a small arc that turns the same way as the hull: a scan keeps
+		// all of them until the next hull vertex arrives and then drops them in
+		// one step (a deep stack that collapses at once)
+		R := float64(int64(1) << 19)
+		m := r.Range(10, 40)
+		k := r.Range(20, 90)
+		gapAt := r.Intn(m)
+		rot := r.Float01() * 2 * math.Pi
+		for i := 0; i < m; i++ {
+			a := rot + 2*math.Pi*float64(i)/float64(m)
+			pts = append(pts, ipt{int64(math.Round(R * math.Cos(a))), int64(math.Round(R * math.Sin(a)))})
+		}
+		// the chain sits near the middle of the gap between hull vertices gapAt and gapAt+1
+		a0 := rot + 2*math.Pi*(float64(gapAt)+0.5)/float64(m)
+		half := math.Pi / float64(m)
+		depth := R * (1 - math.Cos(half)) // sagitta of the gap: how far the chord is inside the circle
+		rr := (0.02 + 0.05*r.Float01()) * R
+		cx := (R - depth - rr*1.05 - r.Float01()*0.01*R) * math.Cos(a0)
+		cy := (R - depth - rr*1.05 - r.Float01()*0.01*R) * math.Sin(a0)
+		span := (0.3 + 1.2*r.Float01()) * math.Pi / 2
+		for j := 0; j < k; j++ {
+			a := a0 - span/2 + span*float64(j)/float64(k-1)
+			pts = append(pts, ipt{int64(math.Round(cx + rr*math.Cos(a))), int64(math.Round(cy + rr*math.Sin(a)))})
+		}
+		for extra := r.Intn(6); extra > 0; extra-- {
+			pts = append(pts, ipt{int64(r.Range(-1000, 1000)), int64(r.Range(-1000, 1000))})
+		}
 	case 0:
 		p := rp()
 		for i := 0; i < n; i++ {
